@@ -208,7 +208,7 @@ CallRoot(a, e) ==
   LET rec == Recording(a) IN
   [NewSpan(a, e.h, IF rec THEN <<[r |-> e.h, tr |-> e.tr, par |-> None, smp |-> e.smp]>> ELSE <<>>, ~rec)
      EXCEPT !.rt = IF rec THEN Put(@, e.h, [tr |-> e.tr, rpar |-> e.rpar, smp |-> e.smp, st |-> "open", cid |-> None,
-                                            opt |-> FALSE, mem |-> {}, done |-> FALSE])
+                                            opt |-> FALSE, mem |-> {}, done |-> FALSE, ret |-> FALSE, dcancel |-> FALSE])
                    ELSE @]
 
 RetRoot(a, e) ==
@@ -225,7 +225,7 @@ CallRootCtx(a, e) ==
   IF e.ctx.some /\ Recording(a)
   THEN [NewSpan(a, e.h, <<[r |-> e.h, tr |-> e.ctx.tr, par |-> None, smp |-> e.ctx.smp]>>, FALSE)
           EXCEPT !.rt = Put(@, e.h, [tr |-> e.ctx.tr, rpar |-> e.ctx.id, smp |-> e.ctx.smp, st |-> "open", cid |-> None,
-                                     opt |-> FALSE, mem |-> {}, done |-> FALSE])]
+                                     opt |-> FALSE, mem |-> {}, done |-> FALSE, ret |-> FALSE, dcancel |-> FALSE])]
   ELSE NewSpan(a, e.h, <<>>, TRUE)
 RetRootCtx(a, e) ==
   LET want == IF F(e, "src") = None THEN LocalCtx(a, e.t) ELSE SpanCtx(a, e.src) IN
@@ -352,7 +352,8 @@ CallDrop(a, e) ==
        ELSE a2
 
 CallCancel(a, e) ==
-  IF a.cfg.cancelable /\ SpanLive(a, e.h) /\ Has(a.rt, e.h) /\ a.rt[e.h].st = "open" /\ a.rt[e.h].smp
+  IF ~a.cfg.cancelable /\ SpanLive(a, e.h) /\ Has(a.rt, e.h) THEN [a EXCEPT !.rt[e.h].dcancel = TRUE]
+  ELSE IF a.cfg.cancelable /\ SpanLive(a, e.h) /\ Has(a.rt, e.h) /\ a.rt[e.h].st = "open" /\ a.rt[e.h].smp
   THEN [a EXCEPT !.rt[e.h].st = "canc",
                  !.never = @ \cup {[n |-> x.n, tr |-> x.tr, p |-> "C04"] : x \in {y \in a.exp \cup a.opt : y.r = e.h}},
                  !.exp = {x \in @ : x.r # e.h}, !.opt = {x \in @ : x.r # e.h}]
@@ -373,7 +374,9 @@ Parked(a, e) ==
   a1
 AllParked(a) == UNION {a.pk[t] : t \in DOMAIN a.pk} \cup a.exc
 
-DueNow(a) == {x \in a.exp : x.due /\ (a.cfg.cancelable => a.rt[x.r].st = "fin" /\ x.r \notin AllParked(a))}
+\* what the next collector cycle must deliver: in cancelable mode a trace is owed once its root's
+\* finish has returned (and its finish signal is not parked behind a full queue)
+DueNow(a) == {x \in a.exp : x.due /\ (a.cfg.cancelable => a.rt[x.r].st = "fin" /\ a.rt[x.r].ret /\ x.r \notin AllParked(a))}
 
 CallFlush(a, e) == [a EXCEPT !.fl = Put(@, e.t, DueNow(a))]
 RetFlush(a, e) ==
@@ -458,7 +461,7 @@ TakeRecord(a, rec) ==
            \* an attachment can only be missing legitimately when the trace's start was refused (C09)
            a4 == IF cb = "ok" THEN a3
                  ELSE IF cb = "missing-attachment" /\ e.r \in a.qs THEN Viol(a3, "C09", "attachment-lost-after-refused-start", rec)
-                 ELSE ViolK(a3, "C06", cb, [rec |-> rec, must |-> e.must],
+                 ELSE ViolK(a3, IF a.rt[e.r].dcancel THEN "C04" ELSE "C06", cb, [rec |-> rec, must |-> e.must],
                             IF cb = "missing-attachment" /\ cid \in a.cut THEN "cut"
                             ELSE IF cb \in {"missing-attachment", "duplicate-attachment"} /\ twin THEN "twin" ELSE None) IN
        [a4 EXCEPT !.got = Append(@, e)]
@@ -530,7 +533,8 @@ Stats(a, e) ==
   LET open == {a.rt[r].cid : r \in {x \in DOMAIN a.rt : (a.rt[x].st = "open" \/ x \in AllParked(a)) /\ a.rt[x].smp}}
       extra == (Rng(e.active) \ open) \ a.cfg.foreign
       a1 == IF extra # {} THEN ViolK(a, "C08", "retained-trace-state", extra, IF extra \subseteq a.cut THEN "cut" ELSE None) ELSE a IN
-  IF e.deadrx > 0 THEN Viol(a1, "C08", "retained-dead-thread", e.deadrx) ELSE a1
+  IF ~Recording(a) THEN a       \* no reporter installed: there is no collector to consume anything
+  ELSE IF e.deadrx > 0 THEN Viol(a1, "C08", "retained-dead-thread", e.deadrx) ELSE a1
 
 RetAny(a, e) ==
   IF Has(e, "panic") THEN Viol(a, "C07", "panic", <<e.op, e.panic>>) ELSE a
@@ -576,6 +580,7 @@ Ret(a, e) ==
               [] e.op = "ctxs"   -> RetCtxSpan(a0, e)
               [] e.op = "elapsed" -> RetElapsed(a0, e)
               [] e.op = "flush"  -> RetFlush(a0, e)
+              [] e.op = "drop" /\ Has(a0.rt, e.h) -> [a0 EXCEPT !.rt[e.h].ret = TRUE]
               [] OTHER           -> a0 IN
   Settle(a1, e.t, Refused(e))
 
